@@ -869,14 +869,15 @@ class DFA:
         if isinstance(chained_dfa.starting_state, DFProxyState):
             # Add an extra state that will represent the condition point properly (see docs for equivalent_on_values)
             valid, to_else = chained_dfa.starting_state.equivalent_on_values()
-            if valid and to_else:
+            if valid:
                 fake_start = DFState()
                 chained_dfa.add(fake_start)
 
                 fake_start[valid] = chained_dfa.starting_state
                 fake_initial_transition = fake_start[valid].fallthrough(True)
-                fake_start[to_else] = chained_dfa.starting_state
-                fake_start[to_else].fallthrough(True).handles_else()
+                if to_else:  # (there need not be any symbol that is an error on every path through the condition)
+                    fake_start[to_else] = chained_dfa.starting_state
+                    fake_start[to_else].fallthrough(True).handles_else()
                 chained_dfa.starting_state = fake_start
 
         # If the caller wants to chain actions into a DFA which potentially matches the empty string, we have to place the actions onto 
